@@ -10,7 +10,7 @@ from ..model_ac import ModelAC
 
 ID = "C02"
 LEVEL = "exploration"
-SHARDS = {"quick": 4, "thorough": 16}
+SHARDS = {"quick": 8, "thorough": 16}
 RULE = ("cases: (a) enc: msmart _Packet.encode(id, frame) decoded by the independent V2 decoder; (b) dec: packets built by "
         "the independent encoder (varying message id, timestamp, magic, reserved bytes) decoded by _Packet.decode; (c) send: "
         "LAN.send on a V2 connection against the model device. Sweep of all frame lengths 0..255 x boundary ids, plus "
@@ -155,4 +155,4 @@ def run(ctx) -> None:
 
     ctx.hyp("enc", enc_cases, runner, ctx.n(1000, 320000))
     ctx.hyp("dec", dec_cases, runner, ctx.n(1000, 320000))
-    ctx.hyp("send", send_cases, runner, ctx.n(400, 48000))
+    ctx.hyp("send", send_cases, runner, ctx.n(1600, 64000))
